@@ -388,7 +388,8 @@ class C12(core.Check):
             scs.append({"name": "write-zstd-auto-big", "kind": "write", "cfg": {"comp": 2, "level": 1}, "seg": [65536], "D": core.b64(D * 4)})
             scs.append({"name": "write-none-uncomp", "kind": "write", "cfg": {"comp": 0, "uncomp": True, "chunk_hash": 1}, "seg": [1000, "e"], "D": core.b64(Dsmall)})
         # files for the reader-side scenarios
-        variants = [([3000, 40000, 100, 7000], 3, False, "")]
+        # "-dup": a run of byte-identical chunks (zeroed blocks of an image, repeated records), shared with the source
+        variants = [([3000, 40000, 100, 7000], 3, False, ""), ([1500, 2000, 2000, 2000, 2000, 700], 3, False, "-dup")]
         if not q:
             # thorough: the same scenario families over differently shaped files (more / larger / single chunks, other checksum types,
             # uncompressed-source flag, no dictionary), so that every fault point exists at other buffer and chunk alignments too
@@ -396,6 +397,9 @@ class C12(core.Check):
                          ([5000, 33000, 70], 1, True, "-v4")]
         for sizes_, cht_, uncomp_, vtag in variants:
           pieces = [gen.content("text", n, i) for i, n in enumerate(sizes_)]
+          if vtag == "-dup":
+              pieces[2] = pieces[3] = pieces[4] = pieces[1]
+          nbefore = len(scs)
           for comp in ((0, 2) if not q else (2,)):
             vdict = b"" if (uncomp_ or vtag == "-v3") else dict_b
             B = zckref.make_file(pieces, comp_type=comp, dict_bytes=vdict, chunk_hash_type=cht_, uncomp=uncomp_)
@@ -408,7 +412,8 @@ class C12(core.Check):
                 scs.append(dict(base, name="%s-c%s" % (k, comp), kind=k))
             scs.append(dict(base, name="chunkdata-c%s" % comp, kind="chunkdata", chunks=[x % (len(pieces) + 1) for x in [2, 0, 4, 1, 2]]))
             # copy / update: A shares pieces 0 and 2
-            A = zckref.make_file([pieces[0], b"other" * 50, pieces[min(2, len(pieces) - 1)]], comp_type=int(comp[0]), dict_bytes=vdict, chunk_hash_type=cht_, uncomp=uncomp_)
+            A = zckref.make_file([pieces[0], b"other" * 50] + (pieces[1:5] if vtag == "-dup" else [pieces[min(2, len(pieces) - 1)]]), comp_type=int(comp[0]), dict_bytes=vdict,
+                                 chunk_hash_type=cht_, uncomp=uncomp_)
             p = zckref.parse(B)
             T = bytearray(B)
             for c in p.chunks[1:]:
@@ -430,6 +435,9 @@ class C12(core.Check):
             open(os.path.join(wd, "tgt.zck"), "wb").write(B)
             scs.append(dict(base, name="t-zckdl-c%s" % comp, kind="t-zckdl", A=core.b64(A), T=core.b64(bytes(T[: len(T) * 2 // 3])),
                             url="http://127.0.0.1:%d/~maxr=2/c12-c%s/tgt.zck" % (ctx["port"], comp)))
+          if vtag == "-dup":
+              # only the scenarios in which chunks are copied / scanned / read (the tools were enumerated on the first shape)
+              scs[nbefore:] = [x for x in scs[nbefore:] if x["kind"] in ("copy", "update", "fv", "vc", "read")]
         scs.append({"name": "t-zck-default", "kind": "t-zck", "args": [], "D": core.b64(D)})
         scs.append({"name": "t-zck-split", "kind": "t-zck", "args": ["-m", "-s", "</text:p>"], "D": core.b64(D)})
         if not q:
@@ -472,6 +480,10 @@ class C12(core.Check):
                     if sys_ == "write" and (cls, sys_) in pcounts and k < pcounts[(cls, sys_)] + 1:
                         for a1, a2 in ((1, 1), (0, 0), (3, 2)):
                             faults.append((cls, sys_, k, 4, a1, "P", (k + 1, 4, a2)))
+                    # a short transfer followed by a failing call (interrupted while blocked on a slow descriptor)
+                    if sys_ == "write" and (cls, sys_) in pcounts and k < pcounts[(cls, sys_)] + 1:
+                        for a1, k2 in ((1, 3), (4096, 3), (1000, 1)):
+                            faults.append((cls, sys_, k, 4, a1, "P", (k + 1, k2, 0)))
                     if sys_ == "read" and (cls, sys_) in pcounts and k < pcounts[(cls, sys_)]:
                         faults.append((cls, sys_, k, 4, 1, "P", (k + 1, 1, 0)))
             self.count("fault_points_enumerated", len(faults))
